@@ -65,13 +65,11 @@ Proof. exact ff_linear_nan_iff. Qed.
 Print Assumptions C18_ff_nan_iff.
 
 (* proportion exceeding: the NaN-skipping mean of the `>=` discretisation is the fraction of valid
-   index values at or above the threshold (NaN when no index value is valid) *)
+   index values at or above the threshold (NaN when no index value is valid):
+     prop_ge_spec l t = let v := valids l in
+                        match v with [] => XNaN | _ => XFin (#{x in v | x >= t} / #v) end *)
 Theorem C18_proportion_exceeding_list_spec : forall (l : list xv) (t : Q),
-  nanmean (map (fun x => exceed x (XFin t)) l) =x=
-  match valids l with
-  | [] => XNaN
-  | v => XFin (inject_Z (Z.of_nat (length (filter (fun x => xge x (XFin t)) v))) / inject_Z (Z.of_nat (length v)))
-  end.
+  nanmean (map (fun x => exceed x (XFin t)) l) =x= prop_ge_spec l t.
 Proof. exact proportion_list_spec. Qed.
 Print Assumptions C18_proportion_exceeding_list_spec.
 
